@@ -40,3 +40,32 @@ let sgn_of_z x = match x with Z0 -> 0 | Zpos _ -> 1 | Zneg _ -> -1
 
 let split_ws s = List.filter (fun x -> x <> "") (String.split_on_char ' ' s)
 let string_of_bool01 b = if b then "1" else "0"
+
+(* ---- polynomial text I/O (same grammar and canonical order as harness/polyio.h) *)
+let parse_term (s : string) : (n * n) list * z =
+  match String.split_on_char '*' s with
+  | [] -> failwith "empty term"
+  | c :: pows ->
+    let pw p =
+      (* "x<i>^<e>" *)
+      let k = String.index p '^' in
+      (n_of_string (String.sub p 1 (k - 1)), n_of_string (String.sub p (k + 1) (String.length p - k - 1))) in
+    let ps = List.filter (fun (_, e) -> e <> N0) (List.map pw pows) in
+    let ps = List.sort (fun (a, _) (b, _) -> compare (int_of_n a) (int_of_n b)) ps in
+    (ps, z_of_string c)
+
+let mpoly_of_string (s : string) : mpoly =
+  if s = "0" then [] else mp_of_terms (List.map parse_term (String.split_on_char '+' s))
+
+let string_of_mpoly (p : mpoly) : string =
+  match p with
+  | [] -> "0"
+  | _ ->
+    String.concat "+" (List.map (fun (m, c) ->
+      string_of_z c ^ String.concat "" (List.map (fun (x, e) -> "*x" ^ string_of_n x ^ "^" ^ string_of_n e) m)) p)
+
+(* dense univariate: "c0,c1,...,cn" low degree first; "0" or "" for zero *)
+let upoly_of_string (s : string) : z list =
+  if s = "" then [] else List.map z_of_string (String.split_on_char ',' s)
+let string_of_upoly (p : z list) : string =
+  match pnorm p with [] -> "0" | q -> String.concat "," (List.map string_of_z q)
